@@ -1,7 +1,42 @@
 // Out-of-tree harnesses for drcp-format (hook at the end of drcp-format/src/lib.rs).
+// cfg(kani): bounded model checking; cfg(pumpkin_verif): native replay of counterexamples.
 
 #[cfg(not(kani))]
-pub fn replay_entry(harness: &str, _values: Vec<Vec<u8>>) -> i32 {
-    eprintln!("[REPLAY] unknown drcp-format harness {harness}");
-    4
+pub(crate) mod kani {
+    include!(concat!(env!("PUMPKIN_VERIF_HARNESS"), "/pumpkin_solver/native_kani.rs"));
 }
+
+#[cfg(kani)]
+macro_rules! verif_harness {
+    ($(#[$meta:meta])* fn $name:ident() $body:block) => {
+        #[kani::proof]
+        $(#[$meta])*
+        #[kani::stub(alloc::fmt::format, crate::verif_kani::stub_format)]
+        pub(crate) fn $name() $body
+    };
+}
+#[cfg(not(kani))]
+macro_rules! verif_harness {
+    ($(#[$meta:meta])* fn $name:ident() $body:block) => {
+        pub(crate) fn $name() $body
+    };
+}
+
+/// S4: `format!` only feeds error messages here.
+pub(crate) fn stub_format(_args: core::fmt::Arguments<'_>) -> String {
+    String::new()
+}
+
+pub(crate) mod h_atomic {
+    include!(concat!(env!("PUMPKIN_VERIF_HARNESS"), "/drcp_format/h_atomic.rs"));
+}
+pub(crate) mod h_steps {
+    include!(concat!(env!("PUMPKIN_VERIF_HARNESS"), "/drcp_format/h_steps.rs"));
+}
+
+#[cfg(not(kani))]
+pub(crate) mod dispatch {
+    include!(concat!(env!("PUMPKIN_VERIF_HARNESS"), "/drcp_format/dispatch.rs"));
+}
+#[cfg(not(kani))]
+pub use dispatch::replay_entry;
